@@ -9,10 +9,13 @@ pub mod c01;
 pub mod c04;
 pub mod c11;
 pub mod c13;
+#[cfg(feature = "allfeat")]
+pub mod c14;
 pub mod c16;
 pub mod c19;
 pub mod conf;
 pub mod dump;
+pub mod hist;
 pub mod spec;
 
 pub struct Ctx {
@@ -101,11 +104,16 @@ pub fn replay(property: &str, case: &serde_json::Value) -> Result<(), String> {
     if case["kind"].as_str() == Some("special") {
         return spec::replay(case);
     }
+    if case["kind"].as_str() == Some("history") {
+        return hist::replay(case);
+    }
     match property {
         "C01" => c01::replay(case),
         "C04" => c04::replay(case),
         "C11" => c11::replay(case),
         "C13" => c13::replay(case),
+        #[cfg(feature = "allfeat")]
+        "C14" => c14::replay(case),
         "C16" => c16::replay(case),
         "C19" => c19::replay(case),
         "C02" | "C05" | "C06" | "C07" | "C08" | "C09" | "C10" if matches!(case["kind"].as_str(), Some("conf") | Some("conf-batch")) => conf::replay(case),
@@ -126,7 +134,11 @@ pub fn run(property: &str, ctx: &Ctx, rep: &mut Report) -> Result<(), String> {
         "C01" => c01::run(ctx, rep),
         "C04" => c04::run(ctx, rep),
         "C11" => c11::run(ctx, rep),
+        "C12" => hist::run("C12", ctx, rep),
         "C13" => c13::run(ctx, rep),
+        #[cfg(feature = "allfeat")]
+        "C14" => c14::run(ctx, rep),
+        "C15" => hist::run("C15", ctx, rep),
         "C16" => c16::run(ctx, rep),
         "C19" => c19::run(ctx, rep),
         "C02" => conf::run_conf("C02", &["aes"], ctx, rep),
